@@ -15,6 +15,8 @@ typedef struct {
     char bytes[16];
     size_t len;
     char name[24];
+    const char *ptr; /* what is handed to the table: the key's own bytes, or (binary mode) the START OF ANOTHER KEY'S buffer, so
+                        that two keys of different length share an address (the table keeps the caller's pointer) */
 } hkey_t;
 
 static hkey_t K[MAXK];
@@ -69,6 +71,7 @@ add_key(const char *bytes, size_t len)
     memset(k, 0, sizeof *k);
     memcpy(k->bytes, bytes, len);
     k->len = len;
+    k->ptr = k->bytes;
     if (len == 0)
         strcpy(k->name, "<empty>");
     else
@@ -139,7 +142,24 @@ choose_keys(int nkeys)
     char buf[16];
     size_t l;
     int b0;
-    if (MODE != 2) {
+    if (MODE == 1) {
+        /* a case-insensitive table must find a key under ANY spelling: the second key is simply the other spelling of the
+         * first, wherever the table puts it */
+        NK = 0;
+        add_key("abab", 4);
+        add_key("ABaB", 4);
+        b0 = bucket_of(K[0].bytes, K[0].len);
+        if (!find_key("cdefg", 5, 1, 5, K[0].bytes, K[0].len, b0, NULL, buf, &l))
+            exit(2);
+        add_key(buf, l); /* k0 + suffix, same bucket */
+        if (!find_key("xyzw", 4, 1, 6, "", 0, b0, NULL, buf, &l))
+            exit(2);
+        add_key(buf, l); /* unrelated, same bucket */
+        add_key("", 0);
+        add_key("q", 1);
+        add_key("ABAB", 4);
+        add_key("XYZW", 4);
+    } else if (MODE != 2) {
         /* k0 and a case variant of it in the SAME bucket (always true for nocase tables;
          * searched for in case-sensitive ones), a key that extends k0, an unrelated key in
          * the same bucket, the empty key, a key elsewhere. */
@@ -231,6 +251,40 @@ choose_keys(int nkeys)
         add_key("", 0);
         add_key("\0\0", 2);
         add_key("a", 1);
+        /* two prefixes of ONE buffer that share a bucket: same address, different length.  Searched over buffers
+         * b c x y z w .. ; placed fifth and sixth so that --nkeys 6 keeps them */
+        {
+            int f2 = 0, a, b2, c, l1, l2;
+            for (a = 0; a < 7 && !f2; a++)
+                for (b2 = 0; b2 < 7 && !f2; b2++)
+                    for (c = 0; c < 7 && !f2; c++) {
+                        char B[12] = { 'b', 'c', 0, 0, 0, 'q', 'r', 's', 't', 'u', 'v', 'w' };
+                        B[2] = alpha[a], B[3] = alpha[b2], B[4] = alpha[c];
+                        for (l1 = 1; l1 < 12 && !f2; l1++)
+                            for (l2 = l1 + 1; l2 <= 12 && !f2; l2++)
+                                if (bucket_of(B, l1) == bucket_of(B, l2)) {
+                                    hkey_t tmp;
+                                    add_key(B, l2);
+                                    add_key(B, l1);
+                                    K[NK - 1].ptr = K[NK - 2].bytes; /* the shorter one lives at the longer one's address */
+                                    snprintf(K[NK - 1].name, sizeof K[NK - 1].name, "prefix%d-of-key", l1);
+                                    /* move the pair to positions 4 and 5 */
+                                    tmp = K[4], K[4] = K[NK - 2], K[NK - 2] = tmp;
+                                    tmp = K[5], K[5] = K[NK - 1], K[NK - 1] = tmp;
+                                    {
+                                        int q;
+                                        for (q = 0; q < NK; q++)
+                                            K[q].ptr = K[q].bytes; /* the structs moved: addresses anew */
+                                        K[5].ptr = K[4].bytes;
+                                    }
+                                    f2 = 1;
+                                }
+                    }
+            if (!f2) {
+                fprintf(stderr, "alias key search failed\n");
+                exit(2);
+            }
+        }
     }
     if (NK > nkeys)
         NK = nkeys;
@@ -283,13 +337,17 @@ release(void *ctx, void *v)
 }
 
 static int
-key_index(const char *p)
+key_index(const char *p, size_t len)
 {
-    int i;
+    int i, first = -1;
     for (i = 0; i < NK; i++)
-        if (p == K[i].bytes)
-            return i;
-    return -1;
+        if (p == K[i].ptr) {
+            if (K[i].len == len)
+                return i;
+            if (first < 0)
+                first = i;
+        }
+    return first;
 }
 
 static void
@@ -310,7 +368,7 @@ canon(void *ctx, void *v, mc_buf *b)
         }
         mc_buf_i(b, i);
         for (; e; e = e->next) {
-            mc_buf_i(b, e->key ? key_index(e->key) : -2);
+            mc_buf_i(b, e->key ? key_index(e->key, e->len) : -2);
             mc_buf_i(b, (long long)e->len);
             mc_buf_i(b, (long long)(size_t)e->val);
         }
@@ -332,8 +390,8 @@ observe(obj_t *o, const char *hist, const char *what)
             nlive++;
     for (i = 0; i < NK; i++) {
         void *val = (void *)0x5a5a;
-        int rc = (MODE == 2) ? hash_table_lookup_bkey(o->h, K[i].bytes, K[i].len, &val)
-                             : hash_table_lookup(o->h, K[i].bytes, &val);
+        int rc = (MODE == 2) ? hash_table_lookup_bkey(o->h, K[i].ptr, K[i].len, &val)
+                             : hash_table_lookup(o->h, K[i].ptr, &val);
         int c = cls[i];
         if (o->present[c]) {
             if (rc != 0) {
@@ -365,7 +423,7 @@ observe(obj_t *o, const char *hist, const char *what)
     cnt = 0;
     for (it = hash_table_iter(o->h); it; it = hash_table_iter_next(it)) {
         hash_entry_t *e = it->ent;
-        int ki = key_index(hash_entry_key(e));
+        int ki = key_index(hash_entry_key(e), hash_entry_len(e));
         cnt++;
         if (cnt > NK + 2) {
             hash_table_iter_free(it);
@@ -393,7 +451,7 @@ observe(obj_t *o, const char *hist, const char *what)
     cnt = 0;
     for (gn = g; gn; gn = gnode_next(gn)) {
         hash_entry_t *e = gnode_ptr(gn);
-        int ki = key_index(hash_entry_key(e));
+        int ki = key_index(hash_entry_key(e), hash_entry_len(e));
         cnt++;
         if (ki < 0 || hash_entry_len(e) != K[ki].len || !o->present[cls[ki]]
             || (int)(size_t)hash_entry_val(e) != o->val[cls[ki]]) {
@@ -431,8 +489,8 @@ apply(void *ctx, void *v, int op, int check, const char *hist)
         switch (kind) {
         case OP_ENTER1:
         case OP_ENTER2:
-            ret = (MODE == 2) ? hash_table_enter_bkey(o->h, K[k].bytes, K[k].len, (void *)(size_t)nv)
-                              : hash_table_enter(o->h, K[k].bytes, (void *)(size_t)nv);
+            ret = (MODE == 2) ? hash_table_enter_bkey(o->h, K[k].ptr, K[k].len, (void *)(size_t)nv)
+                              : hash_table_enter(o->h, K[k].ptr, (void *)(size_t)nv);
             if (o->present[c])
                 expect = (void *)(size_t)o->val[c];
             else {
@@ -443,15 +501,15 @@ apply(void *ctx, void *v, int op, int check, const char *hist)
             break;
         case OP_REPL1:
         case OP_REPL2:
-            ret = (MODE == 2) ? hash_table_replace_bkey(o->h, K[k].bytes, K[k].len, (void *)(size_t)nv)
-                              : hash_table_replace(o->h, K[k].bytes, (void *)(size_t)nv);
+            ret = (MODE == 2) ? hash_table_replace_bkey(o->h, K[k].ptr, K[k].len, (void *)(size_t)nv)
+                              : hash_table_replace(o->h, K[k].ptr, (void *)(size_t)nv);
             expect = o->present[c] ? (void *)(size_t)o->val[c] : (void *)(size_t)nv;
             o->present[c] = 1;
             o->val[c] = nv;
             break;
         default:
-            ret = (MODE == 2) ? hash_table_delete_bkey(o->h, K[k].bytes, K[k].len)
-                              : hash_table_delete(o->h, K[k].bytes);
+            ret = (MODE == 2) ? hash_table_delete_bkey(o->h, K[k].ptr, K[k].len)
+                              : hash_table_delete(o->h, K[k].ptr);
             expect = o->present[c] ? (void *)(size_t)o->val[c] : NULL;
             o->present[c] = 0;
             break;
